@@ -606,54 +606,209 @@ class CompInst:
     meta: dict = field(default_factory=dict)
 
 
+# documented patterns (UK postcode format: area, district, sector, full; e-mail user name)
+PC_VALID = "^[A-Za-z]{1,2}[0-9][A-Za-z0-9]? [0-9][A-Za-z]{2}$"
+PC_SECTOR = "^[A-Za-z]{1,2}[0-9][A-Za-z0-9]? [0-9]"
+PC_DISTRICT = "^[A-Za-z]{1,2}[0-9][A-Za-z0-9]?"
+PC_AREA = "^[A-Za-z]{1,2}"
+EMAIL_USER = "^[^@]+"
+
+
+class Gen:
+    """Coq generator terms of the DOCUMENTED levels of a comparison in dialect d.  Entries are
+    (is_null_level, term or None for ELSE, evaluable_in_coq)."""
+
+    def __init__(self, d):
+        self.d = d
+
+    def null(self, c):
+        return (True, "gen_null %s %s" % lr(c, self.d), True)
+
+    def exact(self, c):
+        return (False, "gen_exact %s %s" % lr(c, self.d), True)
+
+    def th(self, role, t, c, ev=True):
+        a, b = lr(c, self.d)
+        return (False, f"gen_fn_thresh {coq_string(fname(self.d, role))} {'true' if HIGHER[role] else 'false'} {a} {b} {coq_val(py_number_val(t))}", ev)
+
+    def fnth(self, f, t, hi, c):
+        a, b = lr(c, self.d)
+        return (False, f"gen_fn_thresh {coq_string(f)} {'true' if hi else 'false'} {a} {b} {coq_val(py_number_val(t))}", True)
+
+    def pw(self, role, t, c):
+        a, b = lr(c, self.d)
+        return (False, f"gen_pairwise {coq_string(fname(self.d, role))} {'true' if HIGHER[role] else 'false'} {a} {b} {coq_val(py_number_val(t))}", True)
+
+    def arrint(self, n, c):
+        a, b = lr(c, self.d)
+        return (False, f"gen_arr_intersect {coq_string(fname(self.d, 'arr_len'))} {coq_string(fname(self.d, 'arr_int_level'))} {a} {b} {coq_val(v_int(n))}", True)
+
+    def td(self, c, thr, metric):
+        a, b = lr(c, self.d)
+        return (False, f"gen_timediff {coq_string(fname(self.d, 'epoch'))} {a} {b} {coq_val(py_number_val(thr))} {METRIC[metric]}", True)
+
+    def km(self, t):
+        la, lb = lr(C("lat"), self.d)
+        ga, gb = lr(C("lng"), self.d)
+        return (False, f"gen_km {coq_string(fname(self.d, 'float'))} false {la} {lb} {ga} {gb} {coq_val(py_number_val(t))}", False)
+
+    def merge(self, op, entries, null=False):
+        return (null, f"gen_{op} {coq_list([e[1] for e in entries], 'expr')}", all(e[2] for e in entries))
+
+    def rev(self, c1, c2, sym):
+        a1, b1 = lr(c1, self.d)
+        a2, b2 = lr(c2, self.d)
+        return (False, f"gen_reversed {'true' if sym else 'false'} {a1} {b1} {a2} {b2}", True)
+
+    ELSE = (False, None, True)
+
+
+def _lst(x):
+    return list(x) if isinstance(x, (list, tuple)) else [x]
+
+
 def comparison_grid(tier: str) -> list[CompInst]:
+    """every comparison creator x option combinations, with the DOCUMENTED level list (`expected`) built from the
+    constructor arguments and the documented defaults - independently of create_comparison_levels"""
     import splink.comparison_level_library as cll
     import splink.comparison_library as cl
     out = []
 
-    def add(name, key, make, cols, **meta):
+    def add(name, key, make, cols, expected, ocols=(), **meta):
+        meta = dict(meta, expected=expected, ocols=list(ocols))
         out.append(CompInst(name, f"{name}:{key}", make, cols, meta))
 
-    add("ExactMatch", "name", lambda: cl.ExactMatch("name"), {"name": "str"})
-    for cls, lists in [("LevenshteinAtThresholds", [None, [1], [1, 2, 3], 2]), ("DamerauLevenshteinAtThresholds", [None, [1, 3], 1])]:
+    name, arr, emb, dob, ts, pc, email, fnc, snc = C("name"), C("arr"), C("emb"), C("dob"), C("ts"), C("pc"), C("email"), C("fn"), C("sn")
+    add("ExactMatch", "name", lambda: cl.ExactMatch("name"), {"name": "str"},
+        lambda d: [Gen(d).null(name), Gen(d).exact(name), Gen.ELSE])
+    for cls, role, lists, dflt in [("LevenshteinAtThresholds", "levenshtein", [None, [1], [1, 2, 3], 2], [1, 2]),
+                                   ("DamerauLevenshteinAtThresholds", "damerau_levenshtein", [None, [1, 3], 1], [1, 2]),
+                                   ("JaccardAtThresholds", "jaccard", [None, [0.95, 0.8, 0.5], 0.9], [0.9, 0.7]),
+                                   ("JaroAtThresholds", "jaro", [None, [0.95, 0.8, 0.5], 0.9], [0.9, 0.7]),
+                                   ("JaroWinklerAtThresholds", "jaro_winkler", [None, [0.95, 0.8, 0.5], 0.9], [0.9, 0.7])]:
         for th in lists:
-            add(cls, str(th), lambda cls=cls, th=th: getattr(cl, cls)("name") if th is None else getattr(cl, cls)("name", th), {"name": "str"})
-    for cls in ["JaccardAtThresholds", "JaroAtThresholds", "JaroWinklerAtThresholds"]:
-        for th in [None, [0.95, 0.8, 0.5], 0.9]:
-            add(cls, str(th), lambda cls=cls, th=th: getattr(cl, cls)("name") if th is None else getattr(cl, cls)("name", th), {"name": "str"})
-    add("DistanceFunctionAtThresholds", "lev", lambda: cl.DistanceFunctionAtThresholds("name", "levenshtein", [1, 2], False), {"name": "str"})
+            add(cls, str(th), lambda cls=cls, th=th: getattr(cl, cls)("name") if th is None else getattr(cl, cls)("name", th), {"name": "str"},
+                lambda d, role=role, th=th, dflt=dflt: [Gen(d).null(name), Gen(d).exact(name)] + [Gen(d).th(role, t, name) for t in _lst(dflt if th is None else th)] + [Gen.ELSE])
+    add("DistanceFunctionAtThresholds", "lev", lambda: cl.DistanceFunctionAtThresholds("name", "levenshtein", [1, 2], False), {"name": "str"},
+        lambda d: [Gen(d).null(name), Gen(d).exact(name), Gen(d).fnth("levenshtein", 1, False, name), Gen(d).fnth("levenshtein", 2, False, name), Gen.ELSE])
     add("DistanceFunctionAtThresholds", "jw", lambda: cl.DistanceFunctionAtThresholds("name", "jaro_winkler_similarity", [0.9, 0.7], True), {"name": "str"},
+        lambda d: [Gen(d).null(name), Gen(d).exact(name), Gen(d).fnth("jaro_winkler_similarity", 0.9, True, name), Gen(d).fnth("jaro_winkler_similarity", 0.7, True, name), Gen.ELSE],
         engines=["duckdb"])
-    add("PairwiseStringDistanceFunctionAtThresholds", "lev", lambda: cl.PairwiseStringDistanceFunctionAtThresholds("arr", "levenshtein", [1, 2]), {"arr": "arr"})
-    add("PairwiseStringDistanceFunctionAtThresholds", "jw", lambda: cl.PairwiseStringDistanceFunctionAtThresholds("arr", "jaro_winkler", [0.9, 0.8]), {"arr": "arr"})
+    for key, role, ths in [("lev", "levenshtein", [1, 2]), ("jw", "jaro_winkler", [0.9, 0.8])]:
+        add("PairwiseStringDistanceFunctionAtThresholds", key, lambda role=role, ths=ths: cl.PairwiseStringDistanceFunctionAtThresholds("arr", role, ths), {"arr": "arr"},
+            lambda d, role=role, ths=ths: [Gen(d).null(arr), Gen(d).arrint(1, arr)] + [Gen(d).pw(role, t, arr) for t in ths] + [Gen.ELSE])
+    # AbsoluteTime/DateDifferenceAtThresholds: input_is_string x invalid_dates_as_null x datetime_format
     for cls, is_date in [("AbsoluteTimeDifferenceAtThresholds", False), ("AbsoluteDateDifferenceAtThresholds", True)]:
-        add(cls, "str", lambda cls=cls: getattr(cl, cls)("dob", input_is_string=True, metrics=["day", "month", "year"], thresholds=[1, 1, 1]), {"dob": "date" if is_date else "tsstr"})
-        add(cls, "native", lambda cls=cls: getattr(cl, cls)("ts", input_is_string=False, metrics=["hour", "day"], thresholds=[2, 2]), {"ts": "ts"})
-        add(cls, "str_keepinvalid", lambda cls=cls: getattr(cl, cls)("dob", input_is_string=True, metrics="year", thresholds=1, invalid_dates_as_null=False), {"dob": "date" if is_date else "tsstr"})
-    add("ArrayIntersectAtSizes", "default", lambda: cl.ArrayIntersectAtSizes("arr"), {"arr": "arr"})
-    add("ArrayIntersectAtSizes", "[3, 2, 1]", lambda: cl.ArrayIntersectAtSizes("arr", [3, 2, 1]), {"arr": "arr"})
-    add("DistanceInKMAtThresholds", "[1, 10, 100]", lambda: cl.DistanceInKMAtThresholds("lat", "lng", [1, 10, 100]), {"lat": "lat", "lng": "lng"})
-    add("DistanceInKMAtThresholds", "5", lambda: cl.DistanceInKMAtThresholds("lat", "lng", 5), {"lat": "lat", "lng": "lng"})
-    add("CosineSimilarityAtThresholds", "default", lambda: cl.CosineSimilarityAtThresholds("emb"), {"emb": "emb"})
-    add("CosineSimilarityAtThresholds", "[0.9, 0.5]", lambda: cl.CosineSimilarityAtThresholds("emb", [0.9, 0.5]), {"emb": "emb"})
-    add("DateOfBirthComparison", "str", lambda: cl.DateOfBirthComparison("dob", input_is_string=True), {"dob": "date"})
-    add("DateOfBirthComparison", "native", lambda: cl.DateOfBirthComparison("ts", input_is_string=False), {"ts": "ts"})
-    add("DateOfBirthComparison", "custom", lambda: cl.DateOfBirthComparison("dob", input_is_string=True, datetime_thresholds=[1, 6, 2], datetime_metrics=["day", "month", "year"], invalid_dates_as_null=False), {"dob": "date"})
-    add("PostcodeComparison", "plain", lambda: cl.PostcodeComparison("pc"), {"pc": "postcode"})
-    add("PostcodeComparison", "invalid_null", lambda: cl.PostcodeComparison("pc", invalid_postcodes_as_null=True), {"pc": "postcode"})
-    add("PostcodeComparison", "km", lambda: cl.PostcodeComparison("pc", lat_col="lat", long_col="lng"), {"pc": "postcode", "lat": "lat", "lng": "lng"})
-    add("EmailComparison", "email", lambda: cl.EmailComparison("email"), {"email": "email"})
-    add("NameComparison", "default", lambda: cl.NameComparison("name"), {"name": "str"})
-    add("NameComparison", "dmeta", lambda: cl.NameComparison("name", dmeta_col_name="arr"), {"name": "str", "arr": "arr"})
-    add("NameComparison", "[0.95, 0.9, 0.8, 0.6]", lambda: cl.NameComparison("name", jaro_winkler_thresholds=[0.95, 0.9, 0.8, 0.6]), {"name": "str"})
-    add("ForenameSurnameComparison", "default", lambda: cl.ForenameSurnameComparison("fn", "sn"), {"fn": "str", "sn": "str"})
-    add("ForenameSurnameComparison", "concat", lambda: cl.ForenameSurnameComparison("fn", "sn", forename_surname_concat_col_name="name"), {"fn": "str", "sn": "str", "name": "str"})
-    add("ForenameSurnameComparison", "[0.95, 0.9, 0.8]", lambda: cl.ForenameSurnameComparison("fn", "sn", jaro_winkler_thresholds=[0.95, 0.9, 0.8]), {"fn": "str", "sn": "str"})
+        op = "date" if is_date else "ts"
+        kind = "date" if is_date else "tsstr"
+        for key, is_str, inv, fmt, metrics, thrs in [("str", True, True, None, ["day", "month", "year"], [1, 1, 1]),
+                                                      ("str_keepinvalid", True, False, None, ["year"], [1]),
+                                                      ("native", False, True, None, ["hour", "day"], [2, 2]),
+                                                      ("native_keepinvalid", False, False, None, ["day"], [3])] + \
+                ([("str_dmy", True, True, "%d/%m/%Y", ["month", "year"], [1, 1]), ("str_dmy_keepinvalid", True, False, "%d/%m/%Y", ["month"], [1])] if is_date else []):
+            cname = "dob" if is_str else "ts"
+            raw = C(cname)
+            parsed = C(cname, (op, fmt)) if is_str else raw
+
+            def expected(d, raw=raw, parsed=parsed, is_str=is_str, inv=inv, metrics=metrics, thrs=thrs):
+                g = Gen(d)
+                return [g.null(parsed if (is_str and inv) else raw), g.exact(raw)] + [g.td(parsed, t, m) for t, m in zip(thrs, metrics)] + [Gen.ELSE]
+            add(cls, key, lambda cls=cls, cname=cname, is_str=is_str, inv=inv, fmt=fmt, metrics=metrics, thrs=thrs:
+                getattr(cl, cls)(cname, input_is_string=is_str, metrics=metrics, thresholds=thrs, datetime_format=fmt, invalid_dates_as_null=inv),
+                {cname: ("date_dmy" if fmt else kind) if is_str else "ts"}, expected, ocols=[parsed] if is_str else [])
+    add("ArrayIntersectAtSizes", "default", lambda: cl.ArrayIntersectAtSizes("arr"), {"arr": "arr"},
+        lambda d: [Gen(d).null(arr), Gen(d).arrint(1, arr), Gen.ELSE])
+    add("ArrayIntersectAtSizes", "[3, 2, 1]", lambda: cl.ArrayIntersectAtSizes("arr", [3, 2, 1]), {"arr": "arr"},
+        lambda d: [Gen(d).null(arr)] + [Gen(d).arrint(n, arr) for n in (3, 2, 1)] + [Gen.ELSE])
+    for key, ths in [("[1, 10, 100]", [1, 10, 100]), ("5", 5)]:
+        add("DistanceInKMAtThresholds", key, lambda ths=ths: cl.DistanceInKMAtThresholds("lat", "lng", ths), {"lat": "lat", "lng": "lng"},
+            lambda d, ths=ths: [Gen(d).merge("or", [Gen(d).null(C("lat")), Gen(d).null(C("lng"))], null=True)] + [Gen(d).km(t) for t in _lst(ths)] + [Gen.ELSE])
+    for key, ths in [("default", None), ("[0.9, 0.5]", [0.9, 0.5])]:
+        add("CosineSimilarityAtThresholds", key, lambda ths=ths: cl.CosineSimilarityAtThresholds("emb") if ths is None else cl.CosineSimilarityAtThresholds("emb", ths), {"emb": "emb"},
+            lambda d, ths=ths: [Gen(d).null(emb)] + [Gen(d).th("cosine", t, emb, ev=False) for t in (ths or [0.9, 0.8, 0.7])] + [Gen.ELSE])
+    # DateOfBirthComparison: input_is_string x invalid_dates_as_null x datetime_format (documented: the format is the one
+    # "used to cast strings to dates", so every date level parses with it)
+    for key, is_str, inv, fmt, thrs, metrics in [("str", True, True, None, None, None), ("str_keepinvalid", True, False, None, None, None),
+                                                  ("native", False, True, None, None, None), ("native_keepinvalid", False, False, None, None, None),
+                                                  ("custom", True, False, None, [1, 6, 2], ["day", "month", "year"]),
+                                                  ("str_dmy", True, True, "%d/%m/%Y", None, None), ("str_dmy_keepinvalid", True, False, "%d/%m/%Y", [1], ["month"])]:
+        cname = "dob" if is_str else "ts"
+        raw = C(cname)
+        parsed = C(cname, ("date", fmt)) if is_str else raw
+        kw = dict(input_is_string=is_str, invalid_dates_as_null=inv)
+        if fmt:
+            kw["datetime_format"] = fmt
+        if thrs:
+            kw.update(datetime_thresholds=thrs, datetime_metrics=metrics)
+
+        def expected(d, raw=raw, parsed=parsed, is_str=is_str, inv=inv, thrs=thrs, metrics=metrics):
+            g = Gen(d)
+            dlc = raw if is_str else C(raw.name, ("cast_str",))
+            return [g.null(parsed if (is_str and inv) else raw), g.exact(raw), g.th("damerau_levenshtein", 1, dlc, ev=is_str)] + \
+                   [g.td(parsed, t, m) for t, m in zip(thrs or [1, 1, 10], metrics or ["month", "year", "year"])] + [Gen.ELSE]
+        add("DateOfBirthComparison", key, lambda cname=cname, kw=kw: cl.DateOfBirthComparison(cname, **kw),
+            {cname: ("date_dmy" if fmt else "date") if is_str else "ts"}, expected, ocols=[parsed] if is_str else [],
+            tags={"custom_datetime_format": bool(fmt), "invalid_as_null": inv})
+    # PostcodeComparison: invalid_postcodes_as_null x (lat/long supplied or not)
+    sector, district, area = C("pc", ("regex", PC_SECTOR, 0)), C("pc", ("regex", PC_DISTRICT, 0)), C("pc", ("regex", PC_AREA, 0))
+    valid = C("pc", ("regex", PC_VALID, 0))
+    for inv in (False, True):
+        for with_km, kms in [(False, None), (True, None), (True, [2, 50])]:
+            def expected(d, inv=inv, with_km=with_km, kms=kms):
+                g = Gen(d)
+                first = g.null(valid if inv else pc)
+                if with_km:
+                    return [first, g.exact(pc), g.exact(sector)] + [g.km(t) for t in (kms or [1, 10, 100])] + [Gen.ELSE]
+                return [first, g.exact(pc), g.exact(sector), g.exact(district), g.exact(area), Gen.ELSE]
+            kw = dict(invalid_postcodes_as_null=inv)
+            if with_km:
+                kw.update(lat_col="lat", long_col="lng")
+            if kms:
+                kw["km_thresholds"] = kms
+            add("PostcodeComparison", f"invalid_as_null={inv},km={with_km},{kms}", lambda kw=kw: cl.PostcodeComparison("pc", **kw),
+                dict({"pc": "postcode"}, **({"lat": "lat", "lng": "lng"} if with_km else {})), expected, ocols=[sector, district, area, valid],
+                tags={"invalid_as_null": inv, "lat_long_supplied": with_km})
+    user = C("email", ("regex", EMAIL_USER, 0))
+    add("EmailComparison", "email", lambda: cl.EmailComparison("email"), {"email": "email"},
+        lambda d: [Gen(d).null(email), Gen(d).exact(email), Gen(d).exact(user), Gen(d).th("jaro_winkler", 0.88, email), Gen(d).th("jaro_winkler", 0.88, user), Gen.ELSE],
+        ocols=[user])
+    for key, ths, dm in [("default", None, False), ("dmeta", None, True), ("[0.95, 0.9, 0.8, 0.6]", [0.95, 0.9, 0.8, 0.6], False), ("0.9", 0.9, True)]:
+        def expected(d, ths=ths, dm=dm):
+            g = Gen(d)
+            tl = _lst(ths if ths is not None else [0.92, 0.88, 0.7])
+            return [g.null(name), g.exact(name)] + [g.th("jaro_winkler", t, name) for t in tl if t >= 0.88] + ([g.arrint(1, arr)] if dm else []) + \
+                   [g.th("jaro_winkler", t, name) for t in tl if t < 0.88] + [Gen.ELSE]
+        kw = {}
+        if ths is not None:
+            kw["jaro_winkler_thresholds"] = ths
+        if dm:
+            kw["dmeta_col_name"] = "arr"
+        add("NameComparison", key, lambda kw=kw: cl.NameComparison("name", **kw), dict({"name": "str"}, **({"arr": "arr"} if dm else {})), expected)
+    for key, ths, concat in [("default", None, False), ("concat", None, True), ("[0.95, 0.9, 0.8]", [0.95, 0.9, 0.8], False)]:
+        def expected(d, ths=ths, concat=concat):
+            g = Gen(d)
+            first = g.merge("and", [g.null(fnc), g.null(snc)], null=True)
+            second = g.exact(name) if concat else g.merge("and", [g.exact(fnc), g.exact(snc)])
+            return [first, second, g.rev(fnc, snc, True)] + \
+                   [g.merge("and", [g.th("jaro_winkler", t, fnc), g.th("jaro_winkler", t, snc)]) for t in (ths or [0.92, 0.88])] + \
+                   [g.exact(snc), g.exact(fnc), Gen.ELSE]
+        kw = {}
+        if ths:
+            kw["jaro_winkler_thresholds"] = ths
+        if concat:
+            kw["forename_surname_concat_col_name"] = "name"
+        add("ForenameSurnameComparison", key, lambda kw=kw: cl.ForenameSurnameComparison("fn", "sn", **kw),
+            dict({"fn": "str", "sn": "str"}, **({"name": "str"} if concat else {})), expected)
     add("CustomComparison", "levels", lambda: cl.CustomComparison(
         output_column_name="name",
         comparison_levels=[cll.NullLevel("name"), cll.ExactMatchLevel("name"), cll.LevenshteinLevel("name", 1),
-                           {"sql_condition": "levenshtein(name_l, name_r) <= 3"}, cll.ElseLevel()]), {"name": "str"})
+                           {"sql_condition": "levenshtein(name_l, name_r) <= 3"}, cll.ElseLevel()]), {"name": "str"},
+        lambda d: [Gen(d).null(name), Gen(d).exact(name), Gen(d).th("levenshtein", 1, name), Gen(d).fnth("levenshtein", 3, False, name), Gen.ELSE])
     return out
+
+
+def coq_expected(entries) -> str:
+    return coq_list([f"({'true' if n else 'false'}, {'None' if t is None else '(Some (' + t + '))'})" for n, t, _ev in entries], "(bool * option expr)%type")
 
 
 def comparison_structure(inst: CompInst, d: str):
